@@ -23,6 +23,12 @@ CHECKS = {
          "4/C08", TB + " Ground obligations are discharged by evaluation."),
  "C09": ("proof", "kio.index lookups executed symbolically over arbitrary keys/names/versions with the real maps as data: exactly the entry or the documented error; ground: every index entry resolves to the class with its coordinates, every module on disk is indexed, keys map one-to-one.",
          "4/C09", TB + " pkgutil.resolve_name trusted."),
+ "C16": ("exploration", "BOUNDED with a proved core: the generator's decision functions (version matching, tag / nullability resolution, field filtering, class-variable lines, header choice) are proved by symbolic execution of their real bodies; the emission of modules is checked by running the real generator in a scratch tree on an enumerated domain of definitions and comparing every generated (definition, version) module - field by field and byte by byte for a populated instance - with an independent reading of the definition. Never reported as proved.",
+         "4/C16", "Bound: the enumerated definitions (seeded by VERIF_SEED); kio's naming/optional conventions are part of the expected model; the error-code table is copied, not generated. " + TB),
+ "C17": ("proof", "Every function of kio.records.writers verified against the magic-2 batch layout for symbolic records (any number of records and headers, arbitrary sizes): derived header fields, lengths, CRC coverage (CRC uninterpreted), zig-zag varints, deltas; the independent-decoder clause is a bounded native run.",
+         "4/C17", TB + " crc32c and max() under assumed contracts; preconditions: non-empty records, deltas within int32/int64, sizes within int32."),
+ "C18": ("proof", "read_batch verified on every well-formed magic-2 batch (symbolic fields, any number of records, inductive loop rule): header fields as encoded, exact consumption, write-after-read reproduces the bytes (lemma over the reader and writer contracts), wrong magic / checksum mismatch raise ValueError. read_record (float) is under an assumed contract checked by the bounded run, which carries the known finding (record timestamps lose milliseconds); bit flips and truncations rely on the CRC axiom and are validated natively.",
+         "4/C18", TB + " CRC axiom (damaged data changes the CRC) is not a theorem; read_record's contract is assumed in the batch-level proof."),
  "C19": ("proof", "Frame (purity) obligations for every function under contract: no global/nonlocal, no store or mutating call on captured/global objects, temporaries fresh and closed on every path; an injected stream fault at every write/read propagates unchanged; independently built plans are equivalent closures (cache). The thread clause follows by non-interference under stated assumptions - no schedule is explored.",
          "4/C19", TB + " functools.cache and CPython's atomicity of reads of immutable plans are assumed; one bounded native thread run is a stand-in, not proof."),
  "C10": ("proof", "General clause: for every class the real read_entity body on arbitrary bytes raises only SerialError/ValueError/OverflowError classes, never reads beyond the input (source model), every loop has a variant bounded by the unread bytes, and returned values lie in the writer's domain.",
